@@ -264,6 +264,14 @@ func (fs *memFS) view() []interface{} {
 		m := statToJSON(e.st)
 		if os.FileMode(e.st.Mode)&os.ModeType == 0 && e.st.Linkname == "" {
 			m["sha"] = shaShort(e.data)
+			if int64(len(e.data)) != e.st.Size {
+				m["rsize"] = len(e.data) // what the reader yields, when the announced size says something else
+			}
+		} else if os.FileMode(e.st.Mode)&os.ModeType == 0 {
+			// a further name of a regular file: its reader is the reader of the first name
+			if j, ok := fs.idx[e.st.Linkname]; ok && int64(len(fs.ents[j].data)) != e.st.Size {
+				m["rsize"] = len(fs.ents[j].data)
+			}
 		}
 		out = append(out, m)
 	}
